@@ -23,7 +23,7 @@ def _cfg(wd, name, max_runs, max_deliv, max_bogus, view, invs, ids=()):
 
 def explore(wd, script, max_runs, max_deliv=2, max_bogus=1, workers=6, timeout=1500, ids=()):
     """Exhaustive model checking of one catalogue script. Returns dict(states, transitions, model_violation)."""
-    cfg = _cfg(wd, f"MC_{script}.cfg", max_runs, max_deliv, max_bogus, True, ["NoViolation"], ids)
+    cfg = _cfg(wd, f"MC_{script}.cfg", max_runs, max_deliv, max_bogus, True, ["NoViolation", "Convergence"], ids)
     res = run_tlc("MCNet.tla", cfg, wd, env={"SCRIPT": os.path.join(CAT, script + ".json")}, workers=workers, timeout=timeout, heap="8g")
     mv = None
     m = re.search(r'<<"MODELVIOL", (\{[^}]*\}), "(.*)", \d+>>', res["out"])
@@ -94,7 +94,7 @@ def gen_scripts(wd, k, level):
 
 def explore_gen(wd, k, level, max_runs, max_deliv=1, max_bogus=0, workers=8, timeout=3000, ids=(), window=None):
     """Exhaustive model checking of every schedule of every script of the family (or an index window of it)."""
-    cfg = _cfg(wd, f"MCG_{k}_{level}.cfg", max_runs, max_deliv, max_bogus, True, ["NoViolation"], ids)
+    cfg = _cfg(wd, f"MCG_{k}_{level}.cfg", max_runs, max_deliv, max_bogus, True, ["NoViolation", "Convergence"], ids)
     res = run_tlc("MCNet.tla", cfg, wd, env=_gen_env(k, level, window), workers=workers, timeout=timeout, heap="12g")
     mv = None
     m = re.search(r'<<"MODELVIOL", (\{[^}]*\}), "(.*)", (\d+)>>', res["out"])
